@@ -15,6 +15,8 @@
     `swap_remove` moves the last element into the hole.
   * the two `rng.random_range` draws are parameters `o1 o2`.
 -/
+import Aquatic.Model.Prelude
+
 namespace Aquatic
 
 inductive Panic where
@@ -22,8 +24,6 @@ inductive Panic where
   | push     -- `ArrayVec::push` past capacity
   | conv     -- `try_into().unwrap()` failing
   deriving DecidableEq, Repr
-
-deriving instance DecidableEq for Except
 
 def csub (a b : Nat) : Except Panic Nat :=
   if b ≤ a then .ok (a - b) else .error .sub
